@@ -127,17 +127,61 @@ Proof.
 Qed.
 
 (** ** the lines between two tables *)
+(** the mass-flow blocks at the start of [inter] are split off; what remains must be lines, a KCYC/ITER line, blank lines *)
+Fixpoint split_blocks (fuel : nat) (inter : list str) : option (list (list str) * list str) :=
+  match fuel with
+  | O => None
+  | S f =>
+      match break_at is_kcyc inter with
+      | None => None
+      | Some (nk, kc, rest) =>
+          match break_at (fun l => negb (is_blank l)) rest with
+          | Some (bl, m, rest2) =>
+              if str_eqb (fstrip m) mass_flow_title then
+                match break_at (starts_at 1 kw_at) rest2 with
+                | Some (body, sp, rest3) =>
+                    match split_blocks f rest3 with
+                    | Some (bs, fin) => Some ((nk ++ kc :: bl ++ m :: body ++ [sp]) :: bs, fin)
+                    | None => None
+                    end
+                | None => None
+                end
+              else None
+          | None => if forallb is_blank rest then Some ([], inter) else None
+          end
+      end
+  end.
+Lemma split_blocks_spec fuel : forall inter bs fin, split_blocks fuel inter = Some (bs, fin) ->
+  inter = concat bs ++ fin /\ Forall mblock bs /\ exists nk kc bl, fin = nk ++ kc :: bl /\ Forall not_kcyc nk /\ is_kcyc kc = true /\ Forall (fun l => is_blank l = true) bl.
+Proof.
+  induction fuel as [|f IH]; intros inter bs fin H; cbn [split_blocks] in H; [discriminate|].
+  destruct (break_at is_kcyc inter) as [[[nk kc] rest]|] eqn:E1; [|discriminate].
+  destruct (break_at_spec _ _ _ _ _ E1) as [A1 [A2 A3]].
+  destruct (break_at (fun l => negb (is_blank l)) rest) as [[[bl m] rest2]|] eqn:E2.
+  - destruct (break_at_spec _ _ _ _ _ E2) as [B1 [B2 B3]].
+    destruct (str_eqb (fstrip m) mass_flow_title) eqn:E3; [|discriminate].
+    destruct (break_at (starts_at 1 kw_at) rest2) as [[[body sp] rest3]|] eqn:E4; [|discriminate].
+    destruct (break_at_spec _ _ _ _ _ E4) as [C1 [C2 C3]].
+    destruct (split_blocks f rest3) as [[bs' fin']|] eqn:E5; [|discriminate]. inversion H; subst bs fin. clear H.
+    destruct (IH _ _ _ E5) as [D1 [D2 D3]]. split; [|split; [|exact D3]].
+    + cbn [concat]. rewrite A1, B1, C1, D1. repeat (rewrite <- app_assoc; cbn [app]). reflexivity.
+    + constructor; [|exact D2]. exists nk, kc, bl, m, body, sp. split; [reflexivity|]. split; [exact A2|]. split; [exact A3|].
+      split; [eapply Forall_impl; [|exact B2]; cbn; intros l Hl; apply negb_false_iff in Hl; exact Hl|].
+      split; [apply negb_true_iff in B3; exact B3|]. split; [exact E3|]. split; [exact C2|exact C3].
+  - destruct (forallb is_blank rest) eqn:E3; [|discriminate]. inversion H; subst bs fin. clear H.
+    split; [reflexivity|]. split; [constructor|]. exists nk, kc, rest. split; [exact A1|]. split; [exact A2|]. split; [exact A3|].
+    apply (forallb_Forall _ _ _ (fun y Hy => Hy) E3).
+Qed.
 Definition inter_shapeb (inter : list str) (hdr name : str) : bool :=
-  (match break_at is_kcyc inter with Some (_, _, bl) => forallb is_blank bl | None => false end)
+  (match split_blocks (S (length inter)) inter with Some _ => true | None => false end)
   && negb (is_blank hdr) && negb (str_eqb (fstrip hdr) mass_flow_title)
   && (match table_type_T2 (firstn 3 (split_ws (fstrip hdr))) with Ok (Some n) => str_eqb n name | _ => false end).
 Lemma inter_shapeb_spec inter hdr name : inter_shapeb inter hdr name = true -> inter_shape inter hdr name.
 Proof.
   unfold inter_shapeb. intro H. repeat (let Hn := fresh "C" in apply andb_prop in H as [H Hn]).
   constructor.
-  - destruct (break_at is_kcyc inter) as [[[nk kc] bl]|] eqn:E; [|discriminate].
-    destruct (break_at_spec _ _ _ _ _ E) as [E1 [E2 E3]]. exists nk, kc, bl. repeat split; try assumption.
-    apply (forallb_Forall _ _ _ (fun y Hy => Hy) H).
+  - destruct (split_blocks (S (length inter)) inter) as [[bs fin]|] eqn:E; [|discriminate].
+    destruct (split_blocks_spec _ _ _ _ E) as [E1 [E2 [nk [kc [bl [E3 [E4 [E5 E6]]]]]]]]. exists bs, nk, kc, bl. subst fin. repeat split; assumption.
   - apply negb_true. exact C1.
   - apply negb_true. exact C0.
   - destruct (table_type_T2 (firstn 3 (split_ws (fstrip hdr)))) as [[n|]|]; try discriminate. apply str_eqb_eq in C. subst n. reflexivity.
